@@ -301,6 +301,21 @@ func properties() map[string]*propDef {
 						Label: "Produces list, mode (0: <=1 parameter per range, 1: <=2, 2: built-in names + symbolic tail), Accept capacity, length partition"})
 				}
 			}
+			seq := func(cfg, capN int) {
+				out = append(out, item{Harness: "H_C05_seq", Cfg: []int{cfg, capN},
+					Label: "two requests with the same symbolic Accept header to routes with different Produces lists (0: two paths, 1: one path told apart by Consumes, 2: built-in media types, 3: a Produces entry without writer), Accept capacity"})
+			}
+			if tier == "quick" {
+				seq(0, 7)
+				seq(1, 7)
+				seq(2, 0)
+				seq(3, 7)
+			} else {
+				seq(0, 9)
+				seq(1, 9)
+				seq(2, 1)
+				seq(3, 8)
+			}
 			if tier == "quick" {
 				add(0, 0, 8, 9)
 				add(1, 0, 8, 18)
@@ -325,9 +340,9 @@ func properties() map[string]*propDef {
 		},
 		Bounds: map[string]interface{}{"accept_bytes": "8 (thorough up to 13)", "ranges": 2, "parameters_per_range": "1 (mode 1: 2)", "produces": "[a/x], [a/j,a/x], [a/x,a/j], [application/xml], [application/json,application/xml]",
 			"registered_writers": "{a/j (JSON), a/x (XML)} or the built-in pair", "q_values": "D or D.D{1,3} judged; other spellings unspecified; ParseFloat summarised on DIGIT{1,2}(.DIGIT{0,3})? / surely-invalid, the rest ends the path as unmodelled"},
-		Assumptions: append([]string{"JSON/XML marshalling is stubbed (arbitrary output or error)", "map iteration order is an explicit nondeterministic choice (all permutations explored)",
+		Assumptions: append([]string{"JSON/XML marshalling is stubbed (arbitrary output; it fails exactly for the harness type vBadEntity, whose marshalling methods fail natively too)", "map iteration order is an explicit nondeterministic choice (all permutations explored)",
 			"DefaultResponseMimeType is empty except in the two configurations that set it (JSON against Produces [xml]; XML against Produces [json, xml])"}, commonAssumptions...),
-		Rule:           "Produces list x Accept shape x capacity, partitioned by header length; the Accept header is a flat symbolic string; the entity-writer decision is taken twice per request with independent map orders",
+		Rule:           "Produces list x Accept shape x capacity, partitioned by header length; the Accept header is a flat symbolic string; the entity-writer decision is taken twice per request with independent map orders; H_C05_seq: a second request (same Accept header, symbolic choice of route) is judged after a first one was served",
 		RequiredCovers: []string{"admitted", "not-admitted", "definite"},
 	}
 	m["C07"] = &propDef{
@@ -559,7 +574,7 @@ func properties() map[string]*propDef {
 		},
 		Bounds: map[string]interface{}{"calls": "1..2 (thorough 3) chosen from Write, WriteHeader, WriteErrorString, WriteError, WriteEntity, WriteHeaderAndEntity, WriteAsJson, WriteAsXml, WriteHeaderAndXml",
 			"payload_bytes": 3, "failing_call_index": "0..6", "accepted_prefix": "0..8 bytes, at most the write's length"},
-		Assumptions: append([]string{"JSON/XML marshalling is stubbed: output is an arbitrary byte string of <= 3 bytes or an error",
+		Assumptions: append([]string{"JSON/XML marshalling is stubbed: output is an arbitrary byte string of <= 3 bytes; it fails exactly for the harness type vBadEntity (whose marshalling methods fail natively too), and nondeterministically for values of library types (ServiceError)",
 			"the precondition of the property (status set at most once and before any body byte) is assumed on the call sequence",
 			"with a CompressingResponseWriter underneath, the compressor is the typestate stub (accepts every write)"}, commonAssumptions...),
 		Rule:           "every sequence of the listed calls (symbolic choice per step) x pretty-print flag x position at which the underlying writer starts failing x accepted prefix lengths",
